@@ -115,9 +115,13 @@ def do_yield(ip, y, st):
     for s2, v in results:
         env = dict(ip.spec_env(s2))
         env["yielded"] = v          # the value handed to the consumer at this yield
-        for k, cl in enumerate(ip.c.at_yield):
-            from .calls import eval_spec
-            ip.emit("lazy", "at-yield#%d" % k, s2, eval_spec(ip, s2, env, cl, old=ip.entry))
+        ip.in_at_yield = True       # `out` does not hold the value being yielded yet (is_fresh counts accordingly)
+        try:
+            for k, cl in enumerate(ip.c.at_yield):
+                from .calls import eval_spec
+                ip.emit("lazy", "at-yield#%d" % k, s2, eval_spec(ip, s2, env, cl, old=ip.entry))
+        finally:
+            ip.in_at_yield = False
         out = s2.env["out"]
         s2.notes["yc"] = ADD(s2.notes.get("yc", I(0)), I(1))        # ghost yield counter (spec form yield_count())
         if isinstance(s2.heap[out.cid], PyListCell):
